@@ -24,6 +24,8 @@ OPS = ([('put', d) for d in DIGITS] + [('fput', d) for d in (b'', b'0', b'5', b'
        [('put_digit_at', (dg, pos)) for dg in (48, 51) for pos in (0, 1, 2, 5)] + [('shift', p) for p in (0, 1, 2, 3, 6)] + [('freeze', None), ('reset', None)])
 OPS_SMALL = [('put', b'0'), ('put', b'1'), ('put', b'20'), ('put', b'100'), ('fput', b'80'), ('push', b'5'), ('put_digit_at', (51, 1)), ('put_digit_at', (52, 3)),
              ('shift', 2), ('shift', 3), ('freeze', None), ('reset', None)]
+OPS_QUICK = [('put', b'0'), ('put', b'1'), ('put', b'20'), ('fput', b'80'), ('push', b'5'), ('put_digit_at', (51, 1)), ('put_digit_at', (52, 3)), ('shift', 2),
+             ('shift', 3), ('freeze', None)]
 MUTATORS = ('put', 'fput', 'push', 'put_digit_at', 'shift')
 
 
@@ -149,7 +151,7 @@ def _value(text):
 
 def _verdicts(ctx):
     res = explore(ctx, OPS, 3 if ctx.tier == 'thorough' else 2, 'full')
-    res2 = explore(ctx, OPS_SMALL, 5 if ctx.tier == 'thorough' else 4, 'small')
+    res2 = explore(ctx, OPS_SMALL if ctx.tier == 'thorough' else OPS_QUICK, 5 if ctx.tier == 'thorough' else 4, 'small')
     for r in (res, res2):
         if r[0] == 'unsupported':
             return ('unsupported', r[1])
@@ -278,7 +280,7 @@ def rule_builder_cases(ctx, rep):
             rep.violation(R_, k, '%s: %s' % (show_seq(seq), why))
         else:
             rep.ok(R_, k, msg)
-    rep.floor(R_, n, 20000, 'operation steps inspected')
+    rep.floor(R_, n, 11000, 'operation steps inspected')
 
 
 def _frozen(seq):
